@@ -1300,4 +1300,147 @@ Proof.
     by (intros v s tx c [<-|[<-|[]]]; exact I).
   destruct (dlookup _ _); [|apply K]. destruct (unmarshal _); [destruct (_ <? _); [intros []|apply K]|]. destruct proc_stored_unmarshal_failure_panics; [intros [<-|[]]; exact I|apply K].
 Qed.
+
+(* (d) RECOVERY *)
+(* the watcher answers the request at the head of its queue: every message of the answer is handed to the processor *)
+Lemma lstep_watch_feeds st c q r rest : R.find_queue (R.queues (l_disp st)) c = Some q -> R.q_items q = r :: rest ->
+  pops (snd (lstep st (LWatch c))) = map LocalMsg (watch c r (l_now st)) /\
+  In (l_now st, EWatch c r (watch c r (l_now st))) (snd (lstep st (LWatch c))).
+Proof.
+  intros Hq Hi. split.
+  - rewrite lstep_pops. cbn [R.step]. rewrite Hq, Hi. reflexivity.
+  - cbn [ReobsLoop.lstep R.step]. rewrite Hq, Hi. open_feed F. right. left. reflexivity.
+Qed.
+
+(* a forwarded request is in the queue of its chain *)
+Lemma forwarded_is_queued d r now c : snd (R.step d (R.Req r now)) = R.Forward c ->
+  exists q, R.find_queue (R.queues (fst (R.step d (R.Req r now)))) c = Some q /\ In r (R.q_items q).
+Proof.
+  intros Hf. destruct (R.step d (R.Req r now)) as [d' x] eqn:Es. cbn [fst snd] in *. subst x.
+  destruct (RP.forward_to_named_chain _ _ _ _ _ Es) as (_ & _ & _ & (q & Hq & _ & Hit) & _). unfold RP.items in Hit.
+  destruct (R.find_queue (R.queues d') c) as [q'|]; [|discriminate]. cbn [option_map] in Hit. inversion Hit as [E]. exists q'. split; [reflexivity|]. rewrite E. apply in_or_app. right. left. reflexivity.
+Qed.
 End Loop2.
+
+(* ---- "somewhere along the run": concatenation *)
+From WH Require Import model.ProcSpec proofs.SystemLiveProofs.
+
+Lemma happens_app {S X} (stp : S -> X -> S) (P : S -> X -> Prop) : forall a st b,
+  happens stp P st (a ++ b) <-> happens stp P st a \/ happens stp P (fold_left stp a st) b.
+Proof.
+  induction a as [|x a IH]; intros st b; cbn [app happens fold_left]; [tauto|]. rewrite IH. tauto.
+Qed.
+
+Section Recovery.
+Variable recover : bytes -> bytes -> option bytes.
+Variable keccak : bytes -> bytes.
+Variable sign : bytes -> bytes.
+Variable own : addr.
+Variable gov_chain : Z.
+Variable gov_addr : bytes.
+Variable decode_hb : bytes -> option Z.
+Variable decodeq : bytes -> option R.req.
+Variable encq : R.req -> bytes.
+Variable self : G.peerid.
+Variable disable : bool.
+Variable watch : Z -> R.req -> Z -> list msgpub.
+Hypothesis keccak_len : forall b, length (keccak b) = 32%nat.
+Hypothesis own_len : length own = 20%nat.
+Hypothesis sign_correct : forall d, length d = 32%nat -> Processor.rec recover d (sign d) = Some own.
+
+Notation step := (Processor.step recover keccak sign own gov_chain gov_addr).
+Notation prun := (Processor.run recover keccak sign own gov_chain gov_addr).
+Notation lstep := (ReobsLoop.lstep recover keccak sign own gov_chain gov_addr decode_hb decodeq encq self disable watch).
+Notation lrun := (ReobsLoop.lrun recover keccak sign own gov_chain gov_addr decode_hb decodeq encq self disable watch).
+Notation stepf := (fun st o => fst (step st o)).
+
+Lemma prun_fold : forall ops p, fst (prun p ops) = fold_left stepf ops p.
+Proof. induction ops as [|o ops IH]; intros p; [reflexivity|]. rewrite (prun_cons recover keccak sign own gov_chain gov_addr). cbn [fst fold_left]. apply IH. Qed.
+
+(* composition with C02's liveness: after ANY history H0 of the composed node, over ANY continuation H during which the node gets
+   no set change and no cleanup tick: if G is in force and nothing is known about m yet (the node missed m), the processor handles
+   m and signs it somewhere in H - e.g. because its watcher re-observed m in answer to a request (loop_watch_observes) -, the
+   observations of the other members of a quorum arrive by gossip, and the own signature has looped back, then m is published *)
+Theorem loop_recovery G h (own_in : In own (keys G)) H0 H (signers : list addr) m :
+  let st0 := fst (lrun linit H0) in let st := fst (lrun st0 H) in
+  let ops0 := pops (snd (lrun linit H0)) in let ops := pops (snd (lrun st0 H)) in
+  Forall op_wf ops0 -> Forall op_wf ops -> forallb calm ops = true ->
+  cur (l_proc st0) = Some G -> alookup h (agg (l_proc st0)) = None -> gs_wf G ->
+  Processor.dg keccak (vaa_of_message 0 m) = h ->
+  happens stepf (ev_msg recover keccak sign own gov_chain gov_addr m) (l_proc st0) ops ->
+  NoDup signers -> incl signers (keys G) -> go_quorum (Z.of_nat (length (keys G))) <= Z.of_nat (length signers) ->
+  (forall a, In a signers -> a <> own -> happens stepf (ev_obs recover h a) (l_proc st0) ops) ->
+  (forall o, In o (loopq (l_proc st)) -> o_hash o <> h) ->
+  exists e, alookup h (agg (l_proc st)) = Some e /\ our_vaa e <> None /\ gs_snap e = Some G /\ submitted e = true.
+Proof.
+  cbv zeta. intros Hw0 Hw Hc Hcur Hno Hg Hh Hmsg ND Hincl Hq Hdel Hlq.
+  destruct (lrun_wf recover keccak sign own gov_chain gov_addr decode_hb decodeq encq self disable watch H0 linit) as [_ P0]. unfold pwf in P0. cbn [l_proc linit] in P0.
+  destruct (lrun_wf recover keccak sign own gov_chain gov_addr decode_hb decodeq encq self disable watch H (fst (lrun linit H0))) as [_ P1]. unfold pwf in P1.
+  assert (E0 : l_proc (fst (lrun linit H0)) = fst (prun init (pops (snd (lrun linit H0))))) by (rewrite P0; reflexivity).
+  assert (E1 : l_proc (fst (lrun (fst (lrun linit H0)) H)) = fst (prun (fst (prun init (pops (snd (lrun linit H0))))) (pops (snd (lrun (fst (lrun linit H0)) H))))) by (rewrite <- E0, P1; reflexivity).
+  rewrite E1. rewrite E0 in Hcur, Hno, Hmsg, Hdel. rewrite E1 in Hlq.
+  eapply (window_liveness recover keccak sign own gov_chain gov_addr keccak_len own_len sign_correct G h own_in); eassumption.
+Qed.
+
+(* the loop-level event behind "the processor handles m and signs it": the watcher of chain c takes request r from its queue, its
+   re-observation path answers [m], and the processor signs *)
+Lemma loop_watch_observes st0 H1 H2 c q r rest m : let s := fst (lrun st0 H1) in
+  R.find_queue (R.queues (l_disp s)) c = Some q -> R.q_items q = r :: rest -> watch c r (l_now s) = [m] ->
+  existsb is_sendobs (snd (step (l_proc s) (LocalMsg m))) = true ->
+  happens stepf (ev_msg recover keccak sign own gov_chain gov_addr m) (l_proc st0) (pops (snd (lrun st0 (H1 ++ LWatch c :: H2)))).
+Proof.
+  cbv zeta. intros Hq Hi Hw Hs.
+  rewrite (lrun_app_snd recover keccak sign own gov_chain gov_addr decode_hb decodeq encq self disable watch), pops_app. apply happens_app. right.
+  destruct (lrun_wf recover keccak sign own gov_chain gov_addr decode_hb decodeq encq self disable watch H1 st0) as [_ P1]. unfold pwf in P1.
+  rewrite <- prun_fold, P1. cbn [fst].
+  rewrite (lrun_cons recover keccak sign own gov_chain gov_addr decode_hb decodeq encq self disable watch). cbn [snd]. rewrite pops_app. apply happens_app. left.
+  destruct (lstep_watch_feeds recover keccak sign own gov_chain gov_addr decode_hb decodeq encq self disable watch _ _ _ _ _ Hq Hi) as [Ep _].
+  rewrite Ep, Hw. cbn [map happens]. left. split; [reflexivity|exact Hs].
+Qed.
+End Recovery.
+
+(* ================================================================== the network: a request published by one node reaches its peers *)
+Section NetHop.
+Variable recover : bytes -> bytes -> option bytes.
+Variable keccak : bytes -> bytes.
+Variable gov_chain : Z.
+Variable gov_addr : bytes.
+Variable decode_hb : bytes -> option Z.
+Variable decodeq : bytes -> option R.req.
+Variable encq : R.req -> bytes.
+Variable disable : bool.
+Variable owns : nat -> addr.
+Variable signs : nat -> bytes -> bytes.
+Variable selfs : nat -> G.peerid.
+Variable watches : nat -> Z -> R.req -> Z -> list msgpub.
+
+Notation lnstep := (ReobsLoop.lnstep recover keccak gov_chain gov_addr decode_hb decodeq encq disable owns signs selfs watches).
+Notation nd_step := (ReobsLoop.nd_step recover keccak gov_chain gov_addr decode_hb decodeq encq disable owns signs selfs watches).
+Definition dreq (b : bytes) : bool := match decodeq b with Some _ => true | None => false end.
+
+(* what node i publishes when its request goroutine takes r from obsvReqSendC is on the wire *)
+Lemma published_on_wire i u r evs : In (u, EPub r) evs ->
+  In (WReq (owns i) (encq r) (signs i (keccak (p2p_req_preimage (encq r))))) (flat_map (wire_of keccak encq owns signs i) evs).
+Proof. intros Hin. apply in_flat_map. exists (u, EPub r). split; [exact Hin|left; reflexivity]. Qed.
+
+(* ... and when the network delivers it to node j (relayed by any peer other than j itself), j's p2p loop verifies it against j's
+   current guardian set and hands it to j's dispatcher at j's clock reading: i a member of that set, i's signer consistent with
+   recovery, the request at least the verifier's length floor and decodable *)
+Theorem lnet_request_reaches_peer n i j from k r stj Gk :
+  nth_error (x_nodes n) j = Some stj ->
+  nth_error (x_pool n) k = Some (WReq (owns i) (encq r) (signs i (keccak (p2p_req_preimage (encq r))))) ->
+  G.n_gs (l_p2p stj) = Some Gk -> In (owns i) Gk -> bytes_to_address (owns i) = owns i -> from <> selfs j ->
+  decodeq (encq r) = Some r -> p2p_req_too_short (Z.of_nat (length (encq r))) = false ->
+  G.prec recover (keccak (p2p_req_preimage (encq r))) (signs i (keccak (p2p_req_preimage (encq r)))) = Some (owns i) ->
+  In (l_now stj, EDisp (l_disp stj) (R.Req r (l_now stj)) (snd (R.step (l_disp stj) (R.Req r (l_now stj))))) (snd (lnstep n (XDeliver j from k))).
+Proof.
+  intros Hj Hk Hgs Hin Haddr Hfrom Hdec Hlen Hrec. unfold ReobsLoop.lnstep. cbn [ReobsLoop.resolve]. rewrite Hk, Hj. cbn [gmsg_of].
+  unfold ReobsLoop.nd_step. cbn [ReobsLoop.lstep]. unfold ReobsLoop.gstep. cbn [G.loop_step G.p2p_dispatch].
+  rewrite GP.loopback_guard_on. cbn [andb]. destruct (bytes_eqb_spec from (selfs j)) as [E|_]; [contradiction|]. rewrite Hgs.
+  assert (Hok : G.process_obsreq recover keccak (fun b => match decodeq b with Some _ => true | None => false end) Gk (owns i) (encq r) (signs i (keccak (p2p_req_preimage (encq r)))) = G.ROk (encq r)).
+  { apply GP.obsreq_iff. split; [reflexivity|]. split; [rewrite Hdec; reflexivity|]. exists (owns i). split; [symmetry; exact Haddr|]. split; [exact Hin|].
+    split; [apply GP.req_floor_above_32; exact Hlen|]. split; [exact Hlen|exact Hrec]. }
+  rewrite Hok. cbn [G.with_tbl proc_ops_of flat_map app ReobsLoop.feed reqs_of]. rewrite Hdec. cbn [app ReobsLoop.dispatch_all].
+  unfold dispatch. cbn [with_p2p l_disp l_now]. destruct (R.step (l_disp stj) (R.Req r (l_now stj))) as [d' x]. cbn [fst snd app]. left. reflexivity.
+Qed.
+End NetHop.
